@@ -95,14 +95,15 @@ def argmaxAbs (m : Mat α) : Nat :=
       let v := Cx.abs (m.d.getD k Cx.zero)
       if best.2 < v then (k, v) else best) (0, Cx.abs (m.d.getD 0 Cx.zero))).1
 
-/-- `are_matrices_equivalent_up_to_global_phase` -/
+/-- `are_matrices_equivalent_up_to_global_phase` (the measured phase is normalised to modulus one) -/
 def equivPhase (atol : α) (a b : Mat α) : Bool :=
   let k := argmaxAbs a
   let ea := a.d.getD k Cx.zero
   let eb := b.d.getD k Cx.zero
   if Cx.abs ea < atol ∨ Cx.abs eb < atol then false
   else
-    let ph := Cx.div ea eb
+    let ph0 := Cx.div ea eb
+    let ph := Cx.div ph0 (Cx.ofReal (Cx.abs ph0))
     (List.range (a.n * a.n)).all fun i =>
       let x := a.d.getD i Cx.zero
       let y := ph * b.d.getD i Cx.zero
